@@ -33,10 +33,11 @@ Local Open Scope N_scope.
 
 (* ---- the invariant ---------------------------------------------------------------------------- *)
 
-(* what Inv says in counting form: for every instance, answers + held copies <= received copies *)
-Theorem C14_Inv_counts : forall st received answered, Inv st received answered ->
-  forall i, (cnt answered i + cnt (held st) i <= cnt received i)%nat.
-Proof. exact Inv_msub. Qed.
+(* what Inv says in counting form: for every instance, answers + held copies <= received copies
+   (answered is a sub-multiset of received, and held one of received minus answered) *)
+Theorem C14_Inv_counts : forall st received answered,
+  Inv st received answered <-> forall i, (cnt answered i + cnt (held st) i <= cnt received i)%nat.
+Proof. intros. split; [apply Inv_msub|apply Inv_of_counts]. Qed.
 Print Assumptions C14_Inv_counts.
 
 (* one step: the event's query (EDns only) joins [received], the step's answers join [answered];
